@@ -56,6 +56,12 @@ func leavesJSON() []*qast.Node {
 		L(qast.Leaf{Kind: qast.LRange, Field: "f", Lo: qast.Star, Hi: qast.Star, Incl: false}),
 		L(qast.Leaf{Kind: qast.LRange, Field: "f", Lo: qast.Q("a b"), Hi: qast.Q(""), Incl: true}),
 		L(qast.Leaf{Kind: qast.LGt, Field: "f", Val: qast.Q("")}),
+		// the encoding's own key words as data
+		L(qast.Leaf{Kind: qast.LRange, Field: "f", Lo: qast.W("left"), Hi: qast.W("right"), Incl: true}),
+		L(qast.Leaf{Kind: qast.LRange, Field: "min", Lo: qast.W("min"), Hi: qast.W("max"), Incl: false}),
+		eq(qast.W("operator")), eq(qast.W("min")), eq(qast.W("inclusive")), eq(qast.W("boundaries")),
+		L(qast.Leaf{Kind: qast.LEq, Field: "left", Val: qast.W("right")}),
+		L(qast.Leaf{Kind: qast.LList, Field: "max", List: []qast.Value{qast.W("min"), qast.W("left")}}),
 		L(qast.Leaf{Kind: qast.LList, Field: "f", List: []qast.Value{qast.Q(""), qast.W("y")}}),
 	)
 	return ls
